@@ -6,7 +6,7 @@ use std::fmt::Display;
 use bytes::{Buf, BufMut, BytesMut};
 use serde::{Deserialize, Serialize};
 
-use crate::consts::appconsts::{AppVersion, SHARE_SIZE};
+use crate::consts::appconsts::{AppVersion, MIN_SHARE_COUNT, SHARE_SIZE};
 use crate::consts::data_availability_header::{
     MIN_EXTENDED_SQUARE_WIDTH, max_extended_square_width,
 };
@@ -298,6 +298,10 @@ impl ExtendedDataSquare {
         // this couldn't be detected later in `new()`
         if ods_width * ods_width != ods_shares.len() {
             return Err(Error::EdsInvalidDimentions);
+        }
+        // neither could this, there would be no rows to encode
+        if ods_shares.is_empty() {
+            bail_validation!("ods shares len (0) < MIN_SHARE_COUNT ({MIN_SHARE_COUNT})");
         }
 
         let eds_width = ods_width * 2;
